@@ -20,6 +20,7 @@ func init() {
 			"(D2) own-settings switches: the client's filtering / safe-search / safe-browsing / parental settings are copied only on the UseOwnSettings edge and its blocked services only on the UseOwnBlockedServices edge, and the per-client list replaces the global one exactly when present (also while the client's own schedule pauses it); the client's name and tags reach the filter for every found client, whatever the switches say; (D3) clash check before mutation in one critical section: add/remove of index entries are reached only after the clash checks returned nil, with the storage mutex held from the check to the mutation; " +
 			"(D4) index siblings agree: add writes and remove deletes exactly all maps of the index, nothing else mutates them, add and remove address each map with the same key expression, and every identifier map is consulted by a clash check and by a finder; (D5) every access to the indexes happens under the storage mutex. " +
 			"(D6) the most specific subnet wins: the comparator the subnet index is sorted with, evaluated over the finite domain {sign of the prefix-length difference} x {sign of the address comparison}, puts the longer prefix first for every address relation, is antisymmetric and zero only for the same subnet; the lookup's range callback stops at the first prefix that contains the address. " +
+			"(D6, cont.) the exact-address index is probed with the request's address unchanged (its keys keep the zone they were configured with). " +
 			"Not decided: consistency over arbitrary add/update/remove histories, DHCP-lease interleavings, prefix containment itself.",
 		RuleText:    "Call ordering and edge guards on SSA, field-set agreement between sibling functions, who-may-write enumeration, lock dominance over static callers.",
 		Assumptions: []string{"aghalg.SortedMap iterates in comparator order"},
@@ -90,7 +91,7 @@ func runC04(c *Ctx) {
 		macCalls := []string{"iface:(client.DHCP).MACByIP", kByMAC, "(*client.Storage).FindByMAC"}
 		hasMAC := false
 		for _, k := range macCalls {
-			if len(core.CallsTo(fn, k)) > 0 {
+			if len(core.CallsToDeep(fn, k)) > 0 {
 				hasMAC = true
 			}
 		}
@@ -207,67 +208,7 @@ func runC04(c *Ctx) {
 		}
 	}
 	clientIdentityApplied(c, "C04-D2")
-	if af := p.Fn("(*filtering.DNSFilter).ApplyAdditionalFiltering"); af != nil {
-		// the global rules are discarded whenever the client brought its own list (paused or not)
-		gp, np := core.CondEdges(af, func(at core.Atom) (bool, bool) {
-			if (at.Op == token.EQL || at.Op == token.NEQ) && core.IsNilConst(at.Other) {
-				if fr, _, ok := core.LoadedField(at.Base); ok && fr.Type == "filtering.Settings" && fr.Field == "BlockedServices" {
-					return true, at.Op == token.NEQ
-				}
-			}
-			return false, false
-		})
-		isReset := func(in ssa.Instruction) bool {
-			st, ok := in.(*ssa.Store)
-			if !ok {
-				return false
-			}
-			fr, ok := core.FieldOfAddr(st.Addr)
-			return ok && fr.Type == "filtering.Settings" && fr.Field == "ServicesRules" && core.IsNilConst(st.Val)
-		}
-		bad := np == 0
-		var det []string
-		for e := range gp {
-			if found, tr, _ := core.Reach(core.Query{From: []core.Point{{Block: e.From.Succs[e.Succ], Idx: 0}}, Target: core.IsReturn, Avoid: isReset}); found {
-				bad = true
-				det = append(det, p.TraceString(tr))
-			}
-		}
-		r.Check(!bad, "C04-D2", "own-list-always-replaces-global", p.FnPos(af),
-			"whenever the client has its own blocked-services list the global rules are discarded first (also while the client's own schedule pauses blocking)",
-			"a client with its own blocked-services list can keep the global rules (e.g. while its own schedule pauses blocking)", det...)
-	}
-	if af := p.Fn("(*filtering.DNSFilter).ApplyAdditionalFiltering"); af != nil {
-		g, n := core.CondEdges(af, func(at core.Atom) (bool, bool) {
-			if (at.Op == token.EQL || at.Op == token.NEQ) && core.IsNilConst(at.Other) {
-				if fr, _, ok := core.LoadedField(at.Base); ok && fr.Type == "filtering.Settings" && fr.Field == "BlockedServices" {
-					return true, at.Op == token.NEQ
-				}
-			}
-			return false, false
-		})
-		sink := func(in ssa.Instruction) bool {
-			st, ok := in.(*ssa.Store)
-			if !ok {
-				return false
-			}
-			fr, ok := core.FieldOfAddr(st.Addr)
-			return ok && fr.Type == "filtering.Settings" && fr.Field == "ServicesRules"
-		}
-		off, ns := core.UnguardedSinks(af, sink, g)
-		r.Check(n > 0 && ns > 0 && len(off) == 0, "C04-D2", "per-client-list-replaces-only-when-present", p.FnPos(af),
-			"the global blocked-services rules are discarded only when the client brought its own list", "the global blocked-services rules can be discarded although the client has no own list", traceOf(p, off)...)
-		// order: global first, then client callback
-		f1, _, _ := core.Reach(core.Query{From: []core.Point{core.Entry(af)}, Target: func(in ssa.Instruction) bool {
-			call, ok := in.(*ssa.Call)
-			if !ok {
-				return false
-			}
-			fr, _, ok := core.LoadedField(call.Common().Value)
-			return ok && fr.Field == "applyClientFiltering"
-		}, Avoid: core.IsCallTo(false, "(*filtering.DNSFilter).ApplyBlockedServices")})
-		r.Check(!f1, "C04-D2", "global-then-client", p.FnPos(af), "global blocked services are applied before the client callback can override them", "the client callback runs before the global blocked services are applied")
-	}
+	ownBlockedServices(c, "C04-D2")
 
 	c04Mutation(c)
 	c04Siblings(c)
@@ -636,6 +577,34 @@ func c04MostSpecific(c *Ctx) {
 			}
 		}
 	}
+	// (c) an exact address entry is probed with the address as given: the index keys keep the zone they were
+	// configured with, so a normalised copy of the address (zone stripped, unmapped) finds another entry or none,
+	// and a zoned client's request falls through to the subnet clients
+	if fip != nil && len(fip.Params) == 2 {
+		nProbe := 0
+		var badProbe []string
+		for _, f := range core.WithAnon(fip) {
+			for _, b := range f.Blocks {
+				for _, in := range b.Instrs {
+					lk, ok := in.(*ssa.Lookup)
+					if !ok {
+						continue
+					}
+					fr, _, isF := core.LoadedField(lk.X)
+					if !isF || fr.Type != "client.index" || fr.Field != "ipToUID" {
+						continue
+					}
+					nProbe++
+					if core.ResolveCellLoad(lk.Index) != ssa.Value(fip.Params[1]) {
+						badProbe = append(badProbe, p.InstrPos(lk))
+					}
+				}
+			}
+		}
+		r.Check(nProbe > 0 && len(badProbe) == 0, "C04-D6", "exact-address-probed-as-given", p.FnPos(fip),
+			"the exact-address index is probed with the address the request came from, unchanged",
+			"the exact-address index is probed with a transformed copy of the address (zone stripped or the like): a client configured with a zoned address is no longer found by its exact entry and a broader (subnet) client's settings are applied", badProbe...)
+	}
 	if cb == nil {
 		r.Undecided("C04-D6", "subnet-range-callback", "-", "the Range callback of (*client.index).findByIP was not found")
 		return
@@ -771,4 +740,73 @@ func clientIdentityApplied(c *Ctx, rule string) {
 			"the client's "+field+" reaches the filter for every found client, independent of the own-settings switches",
 			"the client's "+field+" is handed to the filter only on one side of an own-settings switch ("+dep+"): rules restricted to that client or tag do not apply to clients using the global settings")
 	}
+}
+
+// ownBlockedServices: the rules about a client's own blocked-services list in
+// ApplyAdditionalFiltering (shared by C01, C04 and C18: which services are
+// blocked for a request, whose settings win, and whose pause schedule counts).
+func ownBlockedServices(c *Ctx, rule string) {
+	p, r := c.P, c.R
+	if af := p.Fn("(*filtering.DNSFilter).ApplyAdditionalFiltering"); af != nil {
+		// the global rules are discarded whenever the client brought its own list (paused or not)
+		gp, np := core.CondEdges(af, func(at core.Atom) (bool, bool) {
+			if (at.Op == token.EQL || at.Op == token.NEQ) && core.IsNilConst(at.Other) {
+				if fr, _, ok := core.LoadedField(at.Base); ok && fr.Type == "filtering.Settings" && fr.Field == "BlockedServices" {
+					return true, at.Op == token.NEQ
+				}
+			}
+			return false, false
+		})
+		isReset := func(in ssa.Instruction) bool {
+			st, ok := in.(*ssa.Store)
+			if !ok {
+				return false
+			}
+			fr, ok := core.FieldOfAddr(st.Addr)
+			return ok && fr.Type == "filtering.Settings" && fr.Field == "ServicesRules" && core.IsNilConst(st.Val)
+		}
+		bad := np == 0
+		var det []string
+		for e := range gp {
+			if found, tr, _ := core.Reach(core.Query{From: []core.Point{{Block: e.From.Succs[e.Succ], Idx: 0}}, Target: core.IsReturn, Avoid: isReset}); found {
+				bad = true
+				det = append(det, p.TraceString(tr))
+			}
+		}
+		r.Check(!bad, rule, "own-list-always-replaces-global", p.FnPos(af),
+			"whenever the client has its own blocked-services list the global rules are discarded first (also while the client's own schedule pauses blocking)",
+			"a client with its own blocked-services list can keep the global rules (e.g. while its own schedule pauses blocking)", det...)
+	}
+	if af := p.Fn("(*filtering.DNSFilter).ApplyAdditionalFiltering"); af != nil {
+		g, n := core.CondEdges(af, func(at core.Atom) (bool, bool) {
+			if (at.Op == token.EQL || at.Op == token.NEQ) && core.IsNilConst(at.Other) {
+				if fr, _, ok := core.LoadedField(at.Base); ok && fr.Type == "filtering.Settings" && fr.Field == "BlockedServices" {
+					return true, at.Op == token.NEQ
+				}
+			}
+			return false, false
+		})
+		sink := func(in ssa.Instruction) bool {
+			st, ok := in.(*ssa.Store)
+			if !ok {
+				return false
+			}
+			fr, ok := core.FieldOfAddr(st.Addr)
+			return ok && fr.Type == "filtering.Settings" && fr.Field == "ServicesRules"
+		}
+		off, ns := core.UnguardedSinksLocal(af, sink, g)
+		r.Check(n > 0 && ns > 0 && len(off) == 0, rule, "per-client-list-replaces-only-when-present", p.FnPos(af),
+			"the global blocked-services rules are discarded only when the client brought its own list", "the global blocked-services rules can be discarded although the client has no own list", traceOf(p, off)...)
+		// order: global first, then client callback
+		f1, _, _ := core.Reach(core.Query{From: []core.Point{core.Entry(af)}, Target: func(in ssa.Instruction) bool {
+			call, ok := in.(*ssa.Call)
+			if !ok {
+				return false
+			}
+			fr, _, ok := core.LoadedField(call.Common().Value)
+			return ok && fr.Field == "applyClientFiltering"
+		}, Avoid: core.IsCallTo(false, "(*filtering.DNSFilter).ApplyBlockedServices")})
+		r.Check(!f1, rule, "global-then-client", p.FnPos(af), "global blocked services are applied before the client callback can override them", "the client callback runs before the global blocked services are applied")
+	}
+
 }
